@@ -27,6 +27,7 @@ type Program struct {
 	funcIDs   map[*ssa.Function]int
 	funcIndex map[string]*ssa.Function
 	typesPkgs map[string]*types.Package
+	qualIndex map[string]*FuncContract
 }
 
 func loadProgram(root, modPath string, pkgPaths []string, tags string) (*Program, error) {
@@ -258,6 +259,39 @@ func (p *Program) contractFor(fn *ssa.Function) *FuncContract {
 	}
 	if fc, ok := p.Contracts.Funcs[pkgPath+"::"+full]; ok {
 		return fc
+	}
+	// written in another package's contract file with the short package name:
+	// gen.TakeMailboxMessage, (*lib.Buffer).Allocate
+	if i := strings.LastIndex(pkgPath, "/"); pkgPath != "" {
+		short := pkgPath[i+1:]
+		var q string
+		switch {
+		case strings.HasPrefix(rel, "(*"):
+			q = "(*" + short + "." + rel[2:]
+		case strings.HasPrefix(rel, "("):
+			q = "(" + short + "." + rel[1:]
+		default:
+			q = short + "." + rel
+		}
+		if p.qualIndex == nil {
+			p.qualIndex = map[string]*FuncContract{}
+			var keys []string
+			for k := range p.Contracts.Funcs {
+				keys = append(keys, k)
+			}
+			sort.Strings(keys)
+			for _, k := range keys {
+				fc := p.Contracts.Funcs[k]
+				if !fc.Functype {
+					if _, dup := p.qualIndex[fc.Name]; !dup {
+						p.qualIndex[fc.Name] = fc
+					}
+				}
+			}
+		}
+		if fc, ok := p.qualIndex[q]; ok && fc.PkgPath != pkgPath {
+			return fc
+		}
 	}
 	return nil
 }
